@@ -7,6 +7,7 @@ CONSTANT MaxCache = 3
 CONSTANT MaxGet = 3
 CONSTANT Deletes = TRUE
 CONSTANT Split = TRUE
+CONSTANT Conflicts = FALSE
 CONSTANT MaxSteps = 14
 SPECIFICATION SimSpec
 INVARIANT BehaviourExport
